@@ -129,9 +129,13 @@ func c10Worker(args []string) {
 	i := 0
 	for sc.Scan() {
 		if i >= from {
-			parts := strings.Fields(sc.Text())
-			root, _ := hex.DecodeString(parts[0])
-			bs, _ := hex.DecodeString(parts[1])
+			// "<root hex> <token hex>": either field may be empty (an empty byte string is an input too)
+			parts := strings.SplitN(sc.Text(), " ", 2)
+			for len(parts) < 2 {
+				parts = append(parts, "")
+			}
+			root, _ := hex.DecodeString(strings.TrimSpace(parts[0]))
+			bs, _ := hex.DecodeString(strings.TrimSpace(parts[1]))
 			fmt.Fprintf(out, "BEGIN\t%d\n", i)
 			out.Flush()
 			r := func() (r string) {
